@@ -19,7 +19,7 @@ namespace vh::pk {
     {
         Rng r(mix_seed(ctx.seed, 21 + (uint64_t) stream * 101));
         Params& P = ctx.params;
-        std::string pre = stream ? fmt("rt%d.", stream) : std::string("rt.");
+        std::string pre = stream ? sfmt("rt%d.", stream) : std::string("rt.");
         auto key = [&](char const* k) { return pre + k; };
         int w = (int) r.range(1, max_workers);
         // small worker counts are the most interesting and cheapest: bias
@@ -68,11 +68,11 @@ namespace vh::pk {
         auto g = [&](char const* k, int64_t d = 0) { return P.get(pre + k, d); };
         std::vector<std::string> a;
         a.push_back("pikasim");
-        a.push_back(fmt("--pika:threads=%lld", (long long) g("workers", 1)));
-        a.push_back(fmt("--pika:scheduler=%s", policy_names[g("policy", 1) & 7]));
+        a.push_back(sfmt("--pika:threads=%lld", (long long) g("workers", 1)));
+        a.push_back(sfmt("--pika:scheduler=%s", policy_names[g("policy", 1) & 7]));
         a.push_back("--pika:ignore-process-mask");
         auto ini = [&](char const* k, int64_t v) {
-            a.push_back(fmt("--pika:ini=%s=%lld", k, (long long) v));
+            a.push_back(sfmt("--pika:ini=%s=%lld", k, (long long) v));
         };
         ini("pika.thread_queue.max_thread_count", g("max_thread_count", 1000));
         ini("pika.thread_queue.min_add_new_count", g("min_add_new_count", 10));
@@ -123,11 +123,26 @@ namespace vh::pk {
         if (!rt) return "runtime: none";
         auto& tm = rt->get_thread_manager();
         using st = pika::threads::detail::thread_schedule_state;
-        return fmt("pika: pending=%lld active=%lld suspended=%lld staged=%lld terminated=%lld",
-            (long long) tm.get_thread_count(st::pending), (long long) tm.get_thread_count(st::active),
-            (long long) tm.get_thread_count(st::suspended),
-            (long long) tm.get_thread_count(st::staged),
-            (long long) tm.get_thread_count(st::terminated));
+        std::string out =
+            sfmt("pika: pending=%lld active=%lld suspended=%lld staged=%lld terminated=%lld",
+                (long long) tm.get_thread_count(st::pending),
+                (long long) tm.get_thread_count(st::active),
+                (long long) tm.get_thread_count(st::suspended),
+                (long long) tm.get_thread_count(st::staged),
+                (long long) tm.get_thread_count(st::terminated));
+        // where is pending work? per priority and worker
+        using pr = pika::execution::thread_priority;
+        std::size_t nw = tm.get_os_thread_count();
+        for (pr p : {pr::low, pr::normal, pr::high})
+            for (std::size_t w = 0; w < nw; w++)
+            {
+                auto c = tm.get_thread_count(st::pending, p, w);
+                auto s2 = tm.get_thread_count(st::staged, p, w);
+                if (c || s2)
+                    out += sfmt(" [prio %d worker %zu: pending %lld staged %lld]", (int) p, w,
+                        (long long) c, (long long) s2);
+            }
+        return out;
     }
 
 }    // namespace vh::pk
